@@ -208,7 +208,9 @@ def natToDec (n : Nat) : Bytes := bstr (toString n)
 def toInput (s : Bytes) : Input := ⟨(s.map (fun b => UInt8.ofNat b)).toArray⟩
 
 /-- `is_predefined_text_macro` -/
-def isPredefined (s : Bytes) : Bool := s == bstr "__LINE__" || s == bstr "__FILE__"
+def bLINE : Bytes := [95, 95, 76, 73, 78, 69, 95, 95]
+def bFILE : Bytes := [95, 95, 70, 73, 76, 69, 95, 95]
+def isPredefined (s : Bytes) : Bool := s == bLINE || s == bFILE
 
 /-- the fifteen `SV_COV_*` constants, in source order -/
 def svCovDefines : List (String × String) :=
@@ -265,6 +267,77 @@ def listItemsOpt (K : PpKinds) (itemKind : Nat) (kids : List Tree) : List (Optio
     else if k.baseKind == K.symbol then (acc.1 ++ [acc.2], none)
     else acc) ([], none)
   r.1 ++ [r.2]
+
+/-- Which bodies of a conditional chain are discarded. `isIfdef` distinguishes `ifdef from `ifndef,
+    `defd n` = "n is in the define table", `ifname` the name after `ifdef/`ifndef, `names` the `elsif names.
+    Result: (skip the if-body, skip flags of the elsif bodies in order, skip the else body).
+    Transliteration of preprocess.rs:469-552: the first branch whose test holds is kept ("hit"), every later one
+    is skipped, the else body is skipped iff some branch was hit. The `elsif test is
+    `defined(elsif name) || predefined(X)` where X is the elsif name in an `ifdef chain and — defect D3, frozen by two
+    golden files — the name after `ifndef in an `ifndef chain. -/
+def condStep (test : Bytes → Bool) (acc : List Bool × Bool) (n : Bytes) : List Bool × Bool :=
+  if acc.2 then (acc.1 ++ [true], true)
+  else if test n then (acc.1 ++ [false], true)
+  else (acc.1 ++ [true], false)
+
+/-- the test applied to an `elsif name -/
+def elsifTest (isIfdef : Bool) (defd : Bytes → Bool) (ifname : Bytes) (n : Bytes) : Bool :=
+  defd n || isPredefined (if isIfdef then n else ifname)
+
+def condPlan (isIfdef : Bool) (defd : Bytes → Bool) (ifname : Bytes) (names : List Bytes) (_hasElse : Bool) :
+    Bool × List Bool × Bool :=
+  let d0 := defd ifname || isPredefined ifname
+  let hit0 := if isIfdef then d0 else !d0
+  let r := names.foldl (condStep (elsifTest isIfdef defd ifname)) ([], hit0)
+  (!hit0, r.1, r.2)
+
+/-- the nodes pushed on the skip list, in the order of the code: keyword, id, [if-body], then per `elsif keyword, id,
+    [body], then the `else keyword, [else body] -/
+def condSkipNodes (kw ifid ifbody : Tree) (elsifs : List (Tree × Tree × Tree)) (els : Option (Tree × Tree))
+    (plan : Bool × List Bool × Bool) : List Tree :=
+  [kw, ifid] ++ (if plan.1 then [ifbody] else []) ++
+  ((elsifs.zip plan.2.1).flatMap (fun (e : (Tree × Tree × Tree) × Bool) =>
+    [e.1.1, e.1.2.1] ++ (if e.2 then [e.1.2.2] else []))) ++
+  (match els with
+   | some (k, body) => [k] ++ (if plan.2.2 then [body] else [])
+   | none => [])
+
+/-- binding of formal to actual arguments (preprocess.rs:951-970), formals taken in order from index `i`:
+    the actual if given, else the default, else "" when the position was present but empty,
+    else `DefineArgNotFound formal` (the first such formal) -/
+def bindArgsFrom (i : Nat) : List (Bytes × Option Bytes) → List (Option Bytes) → Except PpError (List (Bytes × Bytes))
+  | [], _ => .ok []
+  | (arg, dflt) :: rest, actuals =>
+    let v : Except PpError Bytes :=
+      match actuals[i]? with
+      | some (some act) => .ok act
+      | some none => .ok (dflt.getD [])
+      | none =>
+        match dflt with
+        | some d => .ok d
+        | none => .error (.defineArgNotFound arg)
+    match v with
+    | .error e => .error e
+    | .ok x =>
+      match bindArgsFrom (i + 1) rest actuals with
+      | .error e => .error e
+      | .ok m => .ok ((arg, x) :: m)
+
+def bindArgs (formals : List (Bytes × Option Bytes)) (actuals : List (Option Bytes)) :
+    Except PpError (List (Bytes × Bytes)) := bindArgsFrom 0 formals actuals
+
+/-- include path search (preprocess.rs:677-685): as given when absolute or existing; else the first include path under
+    which it exists; else as given -/
+def resolveIncludePath (fs : Fs) (includePaths : List Bytes) (p0 : Bytes) : Bytes :=
+  if pathIsRelative p0 && !fs.exists p0 then
+    match includePaths.find? (fun ip => fs.exists (pathJoin ip p0)) with
+    | some ip => pathJoin ip p0
+    | none => p0
+  else p0
+
+/-- what the Comment arm emits: the comment itself, or with strip_comments one separator byte -/
+def commentEmit (stripComments : Bool) (text : Bytes) : Bytes :=
+  if !stripComments then text else if text.getLast? == some 10 then [10] else [32]
 
 structure Cfg where
   K : PpKinds
@@ -358,24 +431,9 @@ def walk (C : Cfg) : Nat → Input → Bytes → Bytes → Bool → Bool → Nat
             match splitCond K x.kids with
             | none => cont w2
             | some (kw, ifid, ifbody, elsifs, els) =>
-              let wA := (w2.skipPush kw).skipPush ifid
-              let ifname := (identOf K inp ifid).getD []
-              let defd := (wA.defines.get? ifname).isSome || isPredefined ifname
-              let hit0 := if bk == K.ifdef then defd else !defd
-              let wB := if hit0 then wA else wA.skipPush ifbody
-              let r := elsifs.foldl (fun (acc : WState × Bool) (e : Tree × Tree × Tree) =>
-                let (k, id, body) := e
-                let w' := (acc.1.skipPush k).skipPush id
-                let name := (identOf K inp id).getD []
-                if acc.2 then (w'.skipPush body, true)
-                else if (w'.defines.get? name).isSome || isPredefined (if bk == K.ifdef then name else ifname) then (w', true)
-                else (w'.skipPush body, false)) (wB, hit0)
-              let wC := match els with
-                | some (k, body) =>
-                  let w' := r.1.skipPush k
-                  if r.2 then w'.skipPush body else w'
-                | none => r.1
-              cont wC
+              let names := elsifs.map (fun e => (identOf K inp e.2.1).getD [])
+              let plan := condPlan (bk == K.ifdef) (fun n => (w2.defines.get? n).isSome) ((identOf K inp ifid).getD []) names els.isSome
+              cont (skipPushAll w2 (condSkipNodes kw ifid ifbody elsifs els plan))
           else if bk == K.whiteSpace then
             if !w2.skipWs then
               if x.kind == K.wsSpace then
@@ -385,13 +443,9 @@ def walk (C : Cfg) : Nat → Input → Bytes → Bytes → Bool → Bool → Nat
               else cont w2
             else cont w2
           else if bk == K.comment then
-            if !stripComments then cont (pushLoc w2 x)
-            else
-              match locOf x with
-              | some (o, l, _) =>
-                let sep : Bytes := if (bytesOf inp o l).getLast? == some 10 then [10] else [32]
-                cont { w2 with out := w2.out.push sep (some (path, ⟨o, o + l⟩)) }
-              | none => cont w2
+            match locOf x with
+            | some (o, l, _) => cont { w2 with out := w2.out.push (commentEmit stripComments (bytesOf inp o l)) (some (path, ⟨o, o + l⟩)) }
+            | none => cont w2
           else if bk == K.textMacroDefinition then
             let wA := { (w2.skipPush x) with skip := true }
             match x.kids with
@@ -461,12 +515,7 @@ def walk (C : Cfg) : Nat → Input → Bytes → Bytes → Bool → Bool → Nat
                   match pathR with
                   | .error e => .error e
                   | .ok (p0, wE) =>
-                    let p1 :=
-                      if pathIsRelative p0 && !C.fs.exists p0 then
-                        match C.includePaths.find? (fun ip => C.fs.exists (pathJoin ip p0)) with
-                        | some ip => pathJoin ip p0
-                        | none => p0
-                      else p0
+                    let p1 := resolveIncludePath C.fs C.includePaths p0
                     match preprocessInner C fuel p1 wE.defines stripComments false resolveDepth (includeDepth + 1) with
                     | .error e => .error (.include e)
                     | .ok (inc, nd) => cont { wE with defines := nd, out := wE.out.merge inc }
@@ -492,10 +541,10 @@ def walk (C : Cfg) : Nat → Input → Bytes → Bytes → Bool → Bool → Nat
               match locOf kw with
               | some (o, l, line) =>
                 let t := bytesOf inp o l
-                if startsWith t (bstr "__FILE__") then
-                  cont { wA with out := wA.out.push (replaceAll (t.length + 1) t (bstr "__FILE__") ([34] ++ path ++ [34])) none }
-                else if startsWith t (bstr "__LINE__") then
-                  cont { wA with out := wA.out.push (replaceAll (t.length + 1) t (bstr "__LINE__") (natToDec line)) none }
+                if startsWith t bFILE then
+                  cont { wA with out := wA.out.push (replaceAll (t.length + 1) t bFILE ([34] ++ path ++ [34])) none }
+                else if startsWith t bLINE then
+                  cont { wA with out := wA.out.push (replaceAll (t.length + 1) t bLINE (natToDec line)) none }
                 else cont wA
               | none => cont wA
             | none => cont wA
@@ -535,19 +584,7 @@ def resolveUsage (C : Cfg) : Nat → Input → Bytes → Bytes → Tree → Defi
       | some (some define) =>
         if !define.args.isEmpty && noArgs then .error (.defineNoArgs define.ident)
         else
-          let bind : Except PpError (List (Bytes × Bytes)) :=
-            (define.args.zipIdx).foldl (fun (acc : Except PpError (List (Bytes × Bytes))) (a : (Bytes × Option Bytes) × Nat) =>
-              match acc with
-              | .error e => .error e
-              | .ok m =>
-                let ((arg, dflt), i) := a
-                match actuals[i]? with
-                | some (some act) => .ok (m ++ [(arg, act)])
-                | some none => .ok (m ++ [(arg, dflt.getD [])])
-                | none =>
-                  match dflt with
-                  | some d => .ok (m ++ [(arg, d)])
-                  | none => .error (.defineArgNotFound arg)) (.ok [])
+          let bind : Except PpError (List (Bytes × Bytes)) := bindArgs define.args actuals
           match bind with
           | .error e => .error e
           | .ok argMap =>
